@@ -132,6 +132,60 @@ def correspondence(ctx):
                           {"site": site, "inputs": key, "model": [mh, mu], "impl": [ih, iu],
                            "recomputed_errors": list(herr)}, found_input=False)
     ctx.sample({"correspondence_case": cases[5][3], "coq_env": cases[5][1]})
+    bad += qevo_correspondence(ctx)
+    return bad
+
+
+def qevo_correspondence(ctx):
+    """QobjEvo.__call__: the generated init / step / final flag terms folded over
+    the term list, against the flag the real call attaches (1-3 terms, each with
+    its operator's isherm cache in {None, True, False} and a coefficient that is
+    real or not at the evaluation time)."""
+    import qutip
+    herm = np.array([[0, 1], [1, 0]], dtype=complex)
+    nonh = np.array([[0, 1], [0, 0]], dtype=complex)
+
+    def term_obj(flag, k):
+        # a different operator in every position (compress() merges equal ones)
+        m = (herm + np.diag([k + 1, -k])) if flag in (None, True) else (nonh * (k + 1))
+        q = qutip.Qobj(m)
+        if flag is not None:
+            assert q.isherm == flag
+        return q
+    coeffs = {True: (lambda t: 0.5 * t), False: (lambda t: 0.5j * t)}
+    cases, exprs = [], []
+    for n in (1, 2, 3):
+        for flags in itertools.product((None, True, False), repeat=n):
+            for reals in itertools.product((True, False), repeat=n):
+                acc = "(qevo_init_herm %s)" % env(bh=flags[0], pr=reals[0])
+                for k in range(1, n):
+                    acc = ("(qevo_step_herm {| fa_h := %s; fa_u := PNone; fb_h := %s; fb_u := PNone; "
+                           "p_real := %s; p_unitmod := false; p_abs_lt1 := false; p_same_dims := false |})"
+                           % (acc, pv(flags[k]), vlib.cbool(reals[k])))
+                fin = ("(qevo_final_herm {| fa_h := %s; fa_u := PNone; fb_h := PNone; fb_u := PNone; "
+                       "p_real := false; p_unitmod := false; p_abs_lt1 := false; p_same_dims := false |})" % acc)
+                exprs.append(fin)
+                cases.append((flags, reals))
+    vals = vlib.coq_eval_values("cases_C03q", HEADER, exprs)
+    bad = 0
+    for (flags, reals), v in zip(cases, vals):
+        mh = from_coq(v)
+        q = qutip.QobjEvo([[term_obj(f, k), coeffs[r]]
+                           for k, (f, r) in enumerate(zip(flags, reals))])(2.0)
+        ih = None if q._isherm is None else bool(q._isherm)
+        ctx.count_case(("corr", "qobjevo_call", str(flags), str(reals)), nontrivial=True)
+        ctx.cov["traces_validated_against_impl"] += 1
+        if mh != ih:
+            bad += 1
+            herr = c03_oracle.truth(q)
+            wrong = ih is not None and (herr[0] <= 1e-9) != ih
+            ctx.violation("corr:flags:qobjevo_call", [str(flags), str(reals)],
+                          "generated flag terms of QobjEvo.__call__ and the run-time flag differ for "
+                          "terms with cached isherm %s and real-coefficient pattern %s: model %s impl %s"
+                          % (flags, reals, mh, ih)
+                          + ("; the implementation's flag contradicts the matrix" if wrong else ""),
+                          {"site": "qobjevo_call", "flags": list(flags), "real_coeff": list(reals),
+                           "model": mh, "impl": ih}, found_input=wrong)
     return bad
 
 
